@@ -10,6 +10,11 @@ open WV WV.Gen WV.C16
 @[simp] theorem real_T (T : Nat) : (Cfg.real T).T = T := rfl
 @[simp] theorem real_tbl (T : Nat) : (Cfg.real T).tbl = TrafficTimer.table := rfl
 
+/-- on this tree `send_if_connected` is guarded by the connection only: a paused Outbound still
+    writes the un-queued records (breaks — and with it every theorem on Pings — if the guard changes) -/
+@[simp] theorem sendIfConnected_eq (s : St) : sendIfConnected s = s.outConn := by
+  simp [sendIfConnected, Flags.send_if_connected_ignores_pause]
+
 /-- Manager states in which a connection is in use (`_connection` set) -/
 def inUse : Manager.State → Bool
   | .CONNECTED | .ABANDONING | .STOPPING => true
@@ -36,5 +41,9 @@ structure Inv (T : Nat) (s : St) : Prop where
 
 theorem inv_init (T : Nat) : Inv T init := by
   constructor <;> simp [init, inUse, Manager.init]
+
+theorem inv_flow {T : Nat} {s : St} (b : Bool) (hi : Inv T s) : Inv T { s with outPaused := b } := by
+  obtain ⟨h1, h2, h3, h4, h5, h6, h7, h8, h9, h10, h11, h12, h13⟩ := hi
+  constructor <;> assumption
 
 end WV.Proofs.C16
